@@ -260,6 +260,23 @@ func (c *streamCtx) histShapes(prop string) []func(v int) *histSpec {
 			step(400, c.off(), "hard grace over"),
 			step(10, c.off(), "annotation emptied: it goes too", hEdit{Op: "annotate", Node: late, Key: noDeleteKey, Val: ""}))
 	}
+	// a removal request fails (the cloud refuses the first or the second termination), THEN the operator annotates one of the
+	// nodes that were in that request: whatever escalator remembers about the failed request, the annotated node stays
+	shapes["annotate-after-failed-removal"] = func(v int) *histSpec {
+		init := c.histWorld(5, 8, func(b *gbuild) { b.o.MinNodes = 1 })
+		failing := []string{"i-g1-n4", "i-g1-n3"}[v%2]
+		annotated := []string{"g1-n4", "g1-n3"}[(v/2)%2]
+		return hist(init, "annotate-after-failed-removal",
+			step(0, c.off(), "idle cluster: taint"),
+			step(60, c.off(), "the pods are gone", hEdit{Op: "del_pod", Pod: "g1-p5"}, hEdit{Op: "del_pod", Pod: "g1-p4"}, hEdit{Op: "del_pod", Pod: "g1-p3"}),
+			step(300, c.off(), "soft grace over: the removal request is refused part-way").withOracle("g1", awsFail(func(o *AwsOracle) {
+				o.TermInAsgFail = []string{failing}
+				o.ErrCode = []string{"", "Throttling"}[v%2]
+			})),
+			step(30, c.off(), "one node of the failed request is annotated now", hEdit{Op: "annotate", Node: annotated, Key: noDeleteKey, Val: "keep: job 7"}),
+			step(30, c.off(), "again"),
+			step(700, c.off(), "hard grace over"))
+	}
 	// the same in real time (grace periods of seconds, no timestamp is rewritten between the scans: whatever escalator remembers
 	// about a node under its taint value stays addressable)
 	shapes["annotate-late-real"] = func(v int) *histSpec {
@@ -451,6 +468,38 @@ func (c *streamCtx) histShapes(prop string) []func(v int) *histSpec {
 		h.Fleet = true
 		return h
 	}
+	// the cloud cannot be described for a whole scan (refresh and both rebuilds fail) while what the provider remembers is out of
+	// date: the ASG maximum was lowered (v even), or — fleet mode — the group grew by the controller's own earlier request, which
+	// the provider's cache does not show (v odd).  Whatever the scan does then, it must not ask beyond min(max_nodes, cloud max)
+	// as the cloud really is.
+	shapes["stale-cloud"] = func(v int) *histSpec {
+		allFail := []bool{false, false, false}
+		if v%2 == 0 {
+			init := c.histWorld(4, 60, func(b *gbuild) {
+				b.o.MaxNodes, b.asgMax = 10, 12
+				b.o.ScaleUpCoolDownPeriod = "10m"
+			})
+			big := podEdit("g1", "surge", "", 30000, 20*gib)
+			st := step(30, c.off(), "the ASG maximum was lowered to 6, demand jumps, the cloud cannot be described", hEdit{Op: "asg", ASG: "asg-g1", Max: i64p(6)}, big)
+			st.RefreshSeq = allFail
+			return hist(init, "stale-cloud", step(0, c.off(), "steady"), st, step(30, c.off(), "describable again"))
+		}
+		mk := func(pfx string) [][]string { return [][]string{mkIDs(pfx, 4)} }
+		init := c.histWorld(4, 140, func(b *gbuild) {
+			b.template = "lt-g1"
+			b.o.ScaleUpCoolDownPeriod = "1m"
+			b.o.MaxNodes, b.asgMax = 8, 20
+			b.aws.FleetInstances = mk("i-fa-")
+		})
+		st := step(100, 0, "after the cool-down, demand still high, the cloud cannot be described").withOracle("g1", awsFail(func(o *AwsOracle) { o.FleetInstances = mk("i-fb-") }))
+		st.RefreshSeq = allFail
+		h := hist(init, "stale-cloud",
+			step(0, 0, "fleet scale-up by 4: the group is at max_nodes now").withOracle("g1", awsFail(func(o *AwsOracle) { o.FleetInstances = mk("i-fa-") })),
+			st,
+			step(30, 0, "describable again").withOracle("g1", awsFail(func(o *AwsOracle) { o.FleetInstances = mk("i-fc-") })))
+		h.Fleet = true
+		return h
+	}
 	// the node size changes between scans (nodes replaced by another instance type) and the group later scales up from zero:
 	// the cache must hold the size seen in the LAST non-empty scan
 	shapes["node-size-change"] = func(v int) *histSpec {
@@ -473,7 +522,7 @@ func (c *streamCtx) histShapes(prop string) []func(v int) *histSpec {
 		return hist(init, "node-size-change", steps...)
 	}
 	order := []string{"taint-wait-reap", "repeated-scale-down", "cooldown", "pods-move", "restart", "dry", "from-zero", "transient-failure",
-		"constructed-earlier", "lister-lag", "cordon-annotate", "external-taints", "two-groups", "double-fault", "cordon-swap", "annotate-late", "annotate-late-real"}
+		"constructed-earlier", "lister-lag", "cordon-annotate", "external-taints", "two-groups", "double-fault", "cordon-swap", "annotate-late", "annotate-late-real", "annotate-after-failed-removal"}
 	byProp := map[string][]string{
 		"C01":  {"taint-wait-reap", "pods-move", "restart", "external-taints", "lister-lag", "cordon-annotate", "annotate-late"},
 		"C02":  {"cooldown", "restart", "from-zero", "dry", "two-groups", "transient-failure"},
@@ -483,7 +532,7 @@ func (c *streamCtx) histShapes(prop string) []func(v int) *histSpec {
 		"C07":  {"cooldown", "restart", "dry", "transient-failure"},
 		"C08":  {"repeated-scale-down", "double-fault", "taint-wait-reap", "cordon-annotate", "cordon-swap"},
 		"C09":  {"cordon-annotate", "cordon-swap", "pods-move", "taint-wait-reap", "double-fault"},
-		"C10":  {"cordon-annotate", "annotate-late-real", "annotate-late", "taint-wait-reap", "pods-move"},
+		"C10":  {"cordon-annotate", "annotate-after-failed-removal", "annotate-late-real", "annotate-late", "taint-wait-reap", "pods-move"},
 		"C11":  {"dry", "from-zero"},
 		"C12":  {"two-groups", "transient-failure"},
 		"C15":  {"repeated-scale-down", "seconds-apart", "external-taints", "double-fault", "restart", "cooldown", "cordon-swap"},
@@ -493,6 +542,7 @@ func (c *streamCtx) histShapes(prop string) []func(v int) *histSpec {
 		"C05S": {"node-size-change", "from-zero", "node-size-change", "restart", "cooldown"},
 		"C20":  {"transient-failure", "lister-lag", "external-taints", "constructed-earlier", "from-zero"},
 	}
+	c.shapeMap = shapes
 	names := order
 	if l, ok := byProp[prop]; ok {
 		names = l
@@ -532,6 +582,16 @@ func (c *streamCtx) histories(prop string, n int) []genCase {
 			h = shapes[k%ns](k / ns)
 		}
 		out = append(out, genCase{Hist: h})
+	}
+	if prop == "C04" || prop == "SCAN" || prop == "C20" {
+		// each costs 5 s of real time and more (RunOnce's own sleep before the rebuild)
+		ns := 2
+		if c.thorough {
+			ns = 6
+		}
+		for v := 0; v < ns; v++ {
+			out = append(out, genCase{Hist: c.shapeMap["stale-cloud"](v)})
+		}
 	}
 	if fleetLast {
 		nf := 1
